@@ -334,6 +334,10 @@ class PurificationRBM(nn.Module):
             self.sample_a_given_v(v, out=a)
             self.sample_v_given_ha(h, a, out=v)
 
+        if overwrite and v is not initial_state and v.device == initial_state.device:
+            # .to() had to copy (other dtype): write the result back as requested
+            initial_state.copy_(v)
+
         return v
 
     @auto_unsqueeze_args()
